@@ -100,26 +100,26 @@ package parser
 //@   at expression#* assert[C10 C01 C09 C17] leftassoc: arg1 == precOf(tokT(ppos - 1))
 // C01: a projection's right-hand side extends over the selectors that follow (every selector token binds tighter than the
 // binding power handed to parser.projection); the slice sites (#5) re-project each following selector instead
-//@   at projection#1 assert[C01 C17 C09 C10] extends.dot: precOf(const("lexer.DotToken")) > arg1
-//@   at projection#1 assert[C01 C17 C09 C10] extends.bracket: precOf(const("lexer.OpenSqBraceToken")) > arg1
-//@   at projection#1 assert[C01 C17 C09 C10] extends.filter: precOf(const("lexer.FilterToken")) > arg1
-//@   at projection#1 assert[C01 C17 C09 C10] extends.objwild: precOf(const("lexer.ObjectWildcardToken")) > arg1
-//@   at projection#1 assert[C01 C17 C09 C10] extends.arraywild: precOf(const("lexer.ArrayWildcardToken")) > arg1
-//@   at projection#2 assert[C01 C17 C09 C10] extends.dot: precOf(const("lexer.DotToken")) > arg1
-//@   at projection#2 assert[C01 C17 C09 C10] extends.bracket: precOf(const("lexer.OpenSqBraceToken")) > arg1
-//@   at projection#2 assert[C01 C17 C09 C10] extends.filter: precOf(const("lexer.FilterToken")) > arg1
-//@   at projection#2 assert[C01 C17 C09 C10] extends.objwild: precOf(const("lexer.ObjectWildcardToken")) > arg1
-//@   at projection#2 assert[C01 C17 C09 C10] extends.arraywild: precOf(const("lexer.ArrayWildcardToken")) > arg1
-//@   at projection#3 assert[C01 C17 C09 C10] extends.dot: precOf(const("lexer.DotToken")) > arg1
-//@   at projection#3 assert[C01 C17 C09 C10] extends.bracket: precOf(const("lexer.OpenSqBraceToken")) > arg1
-//@   at projection#3 assert[C01 C17 C09 C10] extends.filter: precOf(const("lexer.FilterToken")) > arg1
-//@   at projection#3 assert[C01 C17 C09 C10] extends.objwild: precOf(const("lexer.ObjectWildcardToken")) > arg1
-//@   at projection#3 assert[C01 C17 C09 C10] extends.arraywild: precOf(const("lexer.ArrayWildcardToken")) > arg1
-//@   at projection#4 assert[C01 C17 C09 C10] extends.dot: precOf(const("lexer.DotToken")) > arg1
-//@   at projection#4 assert[C01 C17 C09 C10] extends.bracket: precOf(const("lexer.OpenSqBraceToken")) > arg1
-//@   at projection#4 assert[C01 C17 C09 C10] extends.filter: precOf(const("lexer.FilterToken")) > arg1
-//@   at projection#4 assert[C01 C17 C09 C10] extends.objwild: precOf(const("lexer.ObjectWildcardToken")) > arg1
-//@   at projection#4 assert[C01 C17 C09 C10] extends.arraywild: precOf(const("lexer.ArrayWildcardToken")) > arg1
+//@   at projection#1 assert[C01 C17] extends.dot: precOf(const("lexer.DotToken")) > arg1
+//@   at projection#1 assert[C01 C17] extends.bracket: precOf(const("lexer.OpenSqBraceToken")) > arg1
+//@   at projection#1 assert[C01 C17] extends.filter: precOf(const("lexer.FilterToken")) > arg1
+//@   at projection#1 assert[C01 C17] extends.objwild: precOf(const("lexer.ObjectWildcardToken")) > arg1
+//@   at projection#1 assert[C01 C17] extends.arraywild: precOf(const("lexer.ArrayWildcardToken")) > arg1
+//@   at projection#2 assert[C01 C17] extends.dot: precOf(const("lexer.DotToken")) > arg1
+//@   at projection#2 assert[C01 C17] extends.bracket: precOf(const("lexer.OpenSqBraceToken")) > arg1
+//@   at projection#2 assert[C01 C17] extends.filter: precOf(const("lexer.FilterToken")) > arg1
+//@   at projection#2 assert[C01 C17] extends.objwild: precOf(const("lexer.ObjectWildcardToken")) > arg1
+//@   at projection#2 assert[C01 C17] extends.arraywild: precOf(const("lexer.ArrayWildcardToken")) > arg1
+//@   at projection#3 assert[C01 C17] extends.dot: precOf(const("lexer.DotToken")) > arg1
+//@   at projection#3 assert[C01 C17] extends.bracket: precOf(const("lexer.OpenSqBraceToken")) > arg1
+//@   at projection#3 assert[C01 C17] extends.filter: precOf(const("lexer.FilterToken")) > arg1
+//@   at projection#3 assert[C01 C17] extends.objwild: precOf(const("lexer.ObjectWildcardToken")) > arg1
+//@   at projection#3 assert[C01 C17] extends.arraywild: precOf(const("lexer.ArrayWildcardToken")) > arg1
+//@   at projection#4 assert[C01 C17] extends.dot: precOf(const("lexer.DotToken")) > arg1
+//@   at projection#4 assert[C01 C17] extends.bracket: precOf(const("lexer.OpenSqBraceToken")) > arg1
+//@   at projection#4 assert[C01 C17] extends.filter: precOf(const("lexer.FilterToken")) > arg1
+//@   at projection#4 assert[C01 C17] extends.objwild: precOf(const("lexer.ObjectWildcardToken")) > arg1
+//@   at projection#4 assert[C01 C17] extends.arraywild: precOf(const("lexer.ArrayWildcardToken")) > arg1
 //@   loop 1
 //@     invariant[C09 C01 C10 C17] potential: ppos + pm(len(p.lex.expression), p.lex.position, p.next.Type, p.curr.Type) <= old(ppos + pm(len(p.lex.expression), p.lex.position, p.next.Type, p.curr.Type))
 //@     decreases pm(len(p.lex.expression), p.lex.position, p.next.Type, p.curr.Type)
@@ -142,26 +142,26 @@ package parser
 //@   rank 5
 //@   ensures[C09 C04 C10] progress: result1 == nil ==> ppos > old(ppos) && result0 != nil
 //@   at expression#* assert[C10 C04 C09] prefix: arg1 == 1 || arg1 >= precOf(const("lexer.MultiplyToken"))
-//@   at projection#1 assert[C01 C17 C04 C09 C10] extends.dot: precOf(const("lexer.DotToken")) > arg1
-//@   at projection#1 assert[C01 C17 C04 C09 C10] extends.bracket: precOf(const("lexer.OpenSqBraceToken")) > arg1
-//@   at projection#1 assert[C01 C17 C04 C09 C10] extends.filter: precOf(const("lexer.FilterToken")) > arg1
-//@   at projection#1 assert[C01 C17 C04 C09 C10] extends.objwild: precOf(const("lexer.ObjectWildcardToken")) > arg1
-//@   at projection#1 assert[C01 C17 C04 C09 C10] extends.arraywild: precOf(const("lexer.ArrayWildcardToken")) > arg1
-//@   at projection#2 assert[C01 C17 C04 C09 C10] extends.dot: precOf(const("lexer.DotToken")) > arg1
-//@   at projection#2 assert[C01 C17 C04 C09 C10] extends.bracket: precOf(const("lexer.OpenSqBraceToken")) > arg1
-//@   at projection#2 assert[C01 C17 C04 C09 C10] extends.filter: precOf(const("lexer.FilterToken")) > arg1
-//@   at projection#2 assert[C01 C17 C04 C09 C10] extends.objwild: precOf(const("lexer.ObjectWildcardToken")) > arg1
-//@   at projection#2 assert[C01 C17 C04 C09 C10] extends.arraywild: precOf(const("lexer.ArrayWildcardToken")) > arg1
-//@   at projection#3 assert[C01 C17 C04 C09 C10] extends.dot: precOf(const("lexer.DotToken")) > arg1
-//@   at projection#3 assert[C01 C17 C04 C09 C10] extends.bracket: precOf(const("lexer.OpenSqBraceToken")) > arg1
-//@   at projection#3 assert[C01 C17 C04 C09 C10] extends.filter: precOf(const("lexer.FilterToken")) > arg1
-//@   at projection#3 assert[C01 C17 C04 C09 C10] extends.objwild: precOf(const("lexer.ObjectWildcardToken")) > arg1
-//@   at projection#3 assert[C01 C17 C04 C09 C10] extends.arraywild: precOf(const("lexer.ArrayWildcardToken")) > arg1
-//@   at projection#4 assert[C01 C17 C04 C09 C10] extends.dot: precOf(const("lexer.DotToken")) > arg1
-//@   at projection#4 assert[C01 C17 C04 C09 C10] extends.bracket: precOf(const("lexer.OpenSqBraceToken")) > arg1
-//@   at projection#4 assert[C01 C17 C04 C09 C10] extends.filter: precOf(const("lexer.FilterToken")) > arg1
-//@   at projection#4 assert[C01 C17 C04 C09 C10] extends.objwild: precOf(const("lexer.ObjectWildcardToken")) > arg1
-//@   at projection#4 assert[C01 C17 C04 C09 C10] extends.arraywild: precOf(const("lexer.ArrayWildcardToken")) > arg1
+//@   at projection#1 assert[C01 C17] extends.dot: precOf(const("lexer.DotToken")) > arg1
+//@   at projection#1 assert[C01 C17] extends.bracket: precOf(const("lexer.OpenSqBraceToken")) > arg1
+//@   at projection#1 assert[C01 C17] extends.filter: precOf(const("lexer.FilterToken")) > arg1
+//@   at projection#1 assert[C01 C17] extends.objwild: precOf(const("lexer.ObjectWildcardToken")) > arg1
+//@   at projection#1 assert[C01 C17] extends.arraywild: precOf(const("lexer.ArrayWildcardToken")) > arg1
+//@   at projection#2 assert[C01 C17] extends.dot: precOf(const("lexer.DotToken")) > arg1
+//@   at projection#2 assert[C01 C17] extends.bracket: precOf(const("lexer.OpenSqBraceToken")) > arg1
+//@   at projection#2 assert[C01 C17] extends.filter: precOf(const("lexer.FilterToken")) > arg1
+//@   at projection#2 assert[C01 C17] extends.objwild: precOf(const("lexer.ObjectWildcardToken")) > arg1
+//@   at projection#2 assert[C01 C17] extends.arraywild: precOf(const("lexer.ArrayWildcardToken")) > arg1
+//@   at projection#3 assert[C01 C17] extends.dot: precOf(const("lexer.DotToken")) > arg1
+//@   at projection#3 assert[C01 C17] extends.bracket: precOf(const("lexer.OpenSqBraceToken")) > arg1
+//@   at projection#3 assert[C01 C17] extends.filter: precOf(const("lexer.FilterToken")) > arg1
+//@   at projection#3 assert[C01 C17] extends.objwild: precOf(const("lexer.ObjectWildcardToken")) > arg1
+//@   at projection#3 assert[C01 C17] extends.arraywild: precOf(const("lexer.ArrayWildcardToken")) > arg1
+//@   at projection#4 assert[C01 C17] extends.dot: precOf(const("lexer.DotToken")) > arg1
+//@   at projection#4 assert[C01 C17] extends.bracket: precOf(const("lexer.OpenSqBraceToken")) > arg1
+//@   at projection#4 assert[C01 C17] extends.filter: precOf(const("lexer.FilterToken")) > arg1
+//@   at projection#4 assert[C01 C17] extends.objwild: precOf(const("lexer.ObjectWildcardToken")) > arg1
+//@   at projection#4 assert[C01 C17] extends.arraywild: precOf(const("lexer.ArrayWildcardToken")) > arg1
 //@   ensures[C17 C01 C04 C09 C10] paren.ends: old(p.curr.Type) == const("lexer.OpenParenToken") && result1 == nil ==> !isProj(result0)
 
 //@ func parser.projection
@@ -176,7 +176,7 @@ package parser
 //@   rank 11
 //@   ensures[C09 C01] progress: result1 == nil && result0 != nil ==> ppos > old(ppos)
 //@   ensures none: result1 == nil && result0 == nil ==> ppos == old(ppos) && toks() == old(toks())
-//@   ensures[C01 C17 C09] rhs.absent: result1 == nil && result0 == nil ==> !selectorTok(tokT(ppos))
+//@   ensures[C01 C17] rhs.absent: result1 == nil && result0 == nil ==> !selectorTok(tokT(ppos))
 //@   loop 1
 //@     invariant[C09 C01] potential: ppos + pm(len(p.lex.expression), p.lex.position, p.next.Type, p.curr.Type) <= old(ppos + pm(len(p.lex.expression), p.lex.position, p.next.Type, p.curr.Type))
 //@     decreases pm(len(p.lex.expression), p.lex.position, p.next.Type, p.curr.Type)
